@@ -349,7 +349,7 @@ impl Report {
                 Ok(())
             }
             // development aid only (never set by registered commands): shrink one signature
-            Err(f) if !self.strict && std::env::var("VERIF_ONLY_SIG").map(|s| !f.signature.contains(&s)).unwrap_or(false) => Ok(()),
+            Err(f) if !self.strict && std::env::var("VERIF_ONLY_SIG").map(|s| if let Some(e) = s.strip_prefix('=') { f.signature != e } else { !f.signature.contains(&s) }).unwrap_or(false) => Ok(()),
             // development aid only (never set by registered commands): list every failure
             // signature instead of stopping at the first one
             Err(f) if !self.strict && std::env::var("VERIF_SURVEY").is_ok() => {
@@ -482,13 +482,21 @@ impl Report {
     }
 }
 
+/// Shrink budget of the proptest runners created after the call (checks whose cases spawn a
+/// process lower it: a shrink step costs as much as a case).
+pub static MAX_SHRINK_ITERS: std::sync::atomic::AtomicU32 = std::sync::atomic::AtomicU32::new(2048);
+
+pub fn set_max_shrink_iters(n: u32) {
+    MAX_SHRINK_ITERS.store(n, Ordering::Relaxed);
+}
+
 pub fn proptest_config(seed: u64, cases: u32) -> Config {
     Config {
         cases,
         failure_persistence: None,
         rng_algorithm: RngAlgorithm::ChaCha,
         rng_seed: RngSeed::Fixed(seed),
-        max_shrink_iters: 4096,
+        max_shrink_iters: MAX_SHRINK_ITERS.load(Ordering::Relaxed),
         max_global_rejects: 1_000_000,
         ..Config::default()
     }
